@@ -620,6 +620,51 @@ var malformed = []string{
 	"gzip - 0 d G 677a6970 0 ~ ~ 746578742f706c61696e3b20636861727365743d7574662d38 1 rt500.1/t100.2",
 }
 
+var cfArgs = []string{"-", "-", "gzip", "zstd", "gzip,zstd", "zstd,gzip", "gzip,gzip", "br", "gzip,br", "zstd,zstd,gzip", "identity"}
+
+var cfLines = []string{
+	"gzip", "gzip", "zstd", "zstd", "gzip,5", "gzip,9", "gzip,-3", "gzip,0", "gzip,99", "gzip,-4", "gzip,x", "gzip,5,extra",
+	"zstd,best", "zstd,BEST", "zstd,fastest", "zstd,default,x", "zstd,bogus", "br", "brotli,5", "identity",
+	"minimum_length,100", "minimum_length,1", "minimum_length,0", "minimum_length,-1", "minimum_length,2000", "minimum_length",
+	"minimum_length,x", "minimum_length,+7", "minimum_length,5,zstd", "minimum_length,5,gzip,3", "minimum_length,64,minimum_length,8",
+	"minimum_length,99999999999999999999",
+	"match,status,2xx", "match,status,200,404", "match,status,2xx,3xx,500", "match,status", "match,status,xxx", "match,status,20x", "match,status,0",
+	"match,header,Content-Type,text/*", "match,header,content-type,application/json*", "match,header,CONTENT-TYPE,*", "match,header,X-A,b",
+	"match,header,!X-No", "match,header,!x-no", "match,header,!", "match,header,!X,v", "match,header", "match,header,A", "match,bogus", "match",
+	"match{}", "match{status,2xx}", "match{status,200|header,Content-Type,text/*}", "match{header,Content-Type,text/*|header,Content-Type,*json*}",
+	"match{header,X-A,b|header,!X-A}", "match{header,!x-a|header,X-A,b}", "match{header,!X-A|header,x-a,b|status,404}", "match{bogus}", "match{status}",
+	"match{header,Content-Type,a,b}", "match,header,A,b,c", "match,status,-5", "gzip{}", "minimum_length,5,match,status,200",
+}
+
+var cfGoodLines = []string{
+	"gzip", "zstd", "gzip,5", "gzip,-3", "gzip,0", "zstd,best", "zstd,Fastest", "minimum_length,100", "minimum_length,1", "minimum_length,0",
+	"minimum_length,-1", "minimum_length,5,zstd", "minimum_length,64,minimum_length,8", "match,status,2xx", "match,status,200,404",
+	"match,header,Content-Type,text/*", "match,header,content-type,application/json*", "match,header,!X-No", "match{}",
+	"match{status,200|header,Content-Type,text/*}", "match{header,Content-Type,text/*|header,Content-Type,*json*}", "match{header,!x-a|header,X-A,b}",
+}
+
+func (g *genCase) cfCase() string {
+	rng := g.rng
+	args := rng.Pick(cfArgs)
+	n := rng.Intn(5)
+	if rng.Chance(1, 5) {
+		n = 0
+	}
+	var lines []string
+	for i := 0; i < n; i++ {
+		if rng.Chance(2, 3) {
+			lines = append(lines, rng.Pick(cfGoodLines))
+		} else {
+			lines = append(lines, rng.Pick(cfLines))
+		}
+	}
+	block := "-"
+	if len(lines) > 0 {
+		block = strings.Join(lines, ";")
+	}
+	return "cf " + args + " " + block
+}
+
 func (p *prop) Generate(rng *core.Rand, tier string, emit func(string)) {
 	n := 6000
 	switch tier {
@@ -636,5 +681,11 @@ func (p *prop) Generate(rng *core.Rand, tier string, emit func(string)) {
 	g := &genCase{rng: rng.Fork().Fork(), tier: tier}
 	for i := 0; i < n; i++ {
 		emit(g.one())
+		if i%6 == 0 {
+			emit(g.cfCase())
+		}
+	}
+	for _, m := range []string{"cf", "cf - - -", "cf a,,b -", "cf - gzip;", "cf - match{", "cf - match{a}b", "cf g{ -", "cf - a{b}{c}", "cf x$y -"} {
+		emit(m)
 	}
 }
